@@ -1,1 +1,484 @@
+//! Independent grammar model for lelwel verification: AST, printer, arena, reference algorithms
+//! and family enumerators. Nothing in this crate depends on lelwel.
 
+pub mod arena;
+pub mod bnf;
+pub mod earley;
+pub mod families;
+pub mod interp;
+pub mod lang;
+pub mod sexp;
+
+use std::fmt::Write;
+
+#[derive(Clone, Debug, PartialEq, Eq, Hash, PartialOrd, Ord)]
+pub enum Rx {
+    /// token referenced by name
+    Tok(usize),
+    /// token referenced by symbol
+    Sym(usize),
+    /// rule reference
+    Ref(usize),
+    Concat(Vec<Rx>),
+    Alt(Vec<Rx>),
+    Choice(Vec<Rx>),
+    Star(Box<Rx>),
+    Plus(Box<Rx>),
+    Opt(Box<Rx>),
+    Paren(Option<Box<Rx>>),
+    /// `?n`; None = `?t`
+    Pred(Option<u32>),
+    Action(u32),
+    Assert(u32),
+    Rename(String),
+    Elide,
+    Marker(u32),
+    /// `[n]>[name]`
+    Create(Option<u32>, Option<String>),
+    Commit,
+    Return,
+}
+
+impl Rx {
+    pub fn is_zero_width_op(&self) -> bool {
+        matches!(
+            self,
+            Rx::Pred(_)
+                | Rx::Action(_)
+                | Rx::Assert(_)
+                | Rx::Rename(_)
+                | Rx::Elide
+                | Rx::Marker(_)
+                | Rx::Create(..)
+                | Rx::Commit
+                | Rx::Return
+        )
+    }
+    pub fn children(&self) -> Vec<&Rx> {
+        match self {
+            Rx::Concat(v) | Rx::Alt(v) | Rx::Choice(v) => v.iter().collect(),
+            Rx::Star(x) | Rx::Plus(x) | Rx::Opt(x) => vec![x.as_ref()],
+            Rx::Paren(Some(x)) => vec![x.as_ref()],
+            _ => vec![],
+        }
+    }
+    pub fn walk<'a>(&'a self, f: &mut dyn FnMut(&'a Rx)) {
+        f(self);
+        for c in self.children() {
+            c.walk(f);
+        }
+    }
+    pub fn leaf_count(&self) -> usize {
+        let mut n = 0;
+        self.walk(&mut |r| {
+            if matches!(r, Rx::Tok(_) | Rx::Sym(_) | Rx::Ref(_)) {
+                n += 1
+            }
+        });
+        n
+    }
+    pub fn contains(&self, p: &dyn Fn(&Rx) -> bool) -> bool {
+        let mut found = false;
+        self.walk(&mut |r| {
+            if p(r) {
+                found = true
+            }
+        });
+        found
+    }
+    /// strips transparent parentheses
+    pub fn unparen(&self) -> &Rx {
+        match self {
+            Rx::Paren(Some(x)) => x.unparen(),
+            _ => self,
+        }
+    }
+}
+
+#[derive(Clone, Debug, PartialEq, Eq, Hash)]
+pub struct TokenDef {
+    pub name: String,
+    /// symbol text without the surrounding quotes (raw, escapes included)
+    pub symbol: Option<String>,
+}
+
+#[derive(Clone, Debug, PartialEq, Eq, Hash)]
+pub struct RuleDef {
+    pub name: String,
+    pub elided: bool,
+    pub body: Option<Rx>,
+}
+
+#[derive(Clone, Debug, PartialEq, Eq, Hash)]
+pub struct Grammar {
+    pub tokens: Vec<TokenDef>,
+    pub skip: Vec<usize>,
+    pub right: Vec<usize>,
+    pub start: usize,
+    pub parts: Vec<usize>,
+    pub rules: Vec<RuleDef>,
+}
+
+/// One top-level declaration as printed; the default order is tokens, skip, right, start, parts, rules.
+#[derive(Clone, Debug, PartialEq, Eq, Hash)]
+pub enum Decl {
+    Tokens(Vec<usize>),
+    Skip(Vec<usize>),
+    Right(Vec<usize>),
+    Start,
+    Part(Vec<usize>),
+    Rule(usize),
+}
+
+pub const TOKEN_NAMES: [&str; 8] = ["A", "B", "C", "D", "L", "R", "W", "V"];
+pub const RULE_NAMES: [&str; 6] = ["s", "x", "y", "z", "e", "p"];
+
+impl Grammar {
+    /// A grammar over `ntok` plain tokens named A,B,C,.. with the given rule bodies; rule 0 is the start.
+    pub fn simple(ntok: usize, bodies: Vec<Option<Rx>>) -> Grammar {
+        Grammar {
+            tokens: (0..ntok)
+                .map(|i| TokenDef {
+                    name: TOKEN_NAMES[i].to_string(),
+                    symbol: None,
+                })
+                .collect(),
+            skip: vec![],
+            right: vec![],
+            start: 0,
+            parts: vec![],
+            rules: bodies
+                .into_iter()
+                .enumerate()
+                .map(|(i, body)| RuleDef {
+                    name: RULE_NAMES[i].to_string(),
+                    elided: false,
+                    body,
+                })
+                .collect(),
+        }
+    }
+    pub fn add_token(&mut self, name: &str, symbol: Option<&str>) -> usize {
+        self.tokens.push(TokenDef {
+            name: name.to_string(),
+            symbol: symbol.map(|s| s.to_string()),
+        });
+        self.tokens.len() - 1
+    }
+    pub fn with_skip_token(mut self) -> Grammar {
+        let w = self.add_token("W", None);
+        self.skip.push(w);
+        self
+    }
+    pub fn default_decls(&self) -> Vec<Decl> {
+        let mut d = vec![];
+        if !self.tokens.is_empty() {
+            d.push(Decl::Tokens((0..self.tokens.len()).collect()));
+        }
+        if !self.skip.is_empty() {
+            d.push(Decl::Skip(self.skip.clone()));
+        }
+        if !self.right.is_empty() {
+            d.push(Decl::Right(self.right.clone()));
+        }
+        d.push(Decl::Start);
+        if !self.parts.is_empty() {
+            d.push(Decl::Part(self.parts.clone()));
+        }
+        for i in 0..self.rules.len() {
+            d.push(Decl::Rule(i));
+        }
+        d
+    }
+    /// One-token-per-declaration variant (used for declaration-order permutations).
+    pub fn split_decls(&self) -> Vec<Decl> {
+        let mut d = vec![];
+        for i in 0..self.tokens.len() {
+            d.push(Decl::Tokens(vec![i]));
+        }
+        for &s in &self.skip {
+            d.push(Decl::Skip(vec![s]));
+        }
+        for &s in &self.right {
+            d.push(Decl::Right(vec![s]));
+        }
+        d.push(Decl::Start);
+        for &p in &self.parts {
+            d.push(Decl::Part(vec![p]));
+        }
+        for i in 0..self.rules.len() {
+            d.push(Decl::Rule(i));
+        }
+        d
+    }
+    pub fn lexemes_of_decl(&self, d: &Decl, out: &mut Vec<String>) {
+        match d {
+            Decl::Tokens(ts) => {
+                out.push("token".into());
+                for &t in ts {
+                    out.push(self.tokens[t].name.clone());
+                    if let Some(sym) = &self.tokens[t].symbol {
+                        out.push("=".into());
+                        out.push(format!("'{sym}'"));
+                    }
+                }
+                out.push(";".into());
+            }
+            Decl::Skip(ts) => {
+                out.push("skip".into());
+                for &t in ts {
+                    out.push(self.tokens[t].name.clone());
+                }
+                out.push(";".into());
+            }
+            Decl::Right(ts) => {
+                out.push("right".into());
+                for &t in ts {
+                    out.push(self.tokens[t].name.clone());
+                }
+                out.push(";".into());
+            }
+            Decl::Start => {
+                out.push("start".into());
+                out.push(self.rules[self.start].name.clone());
+                out.push(";".into());
+            }
+            Decl::Part(ps) => {
+                out.push("part".into());
+                for &p in ps {
+                    out.push(self.rules[p].name.clone());
+                }
+                out.push(";".into());
+            }
+            Decl::Rule(i) => {
+                let r = &self.rules[*i];
+                out.push(r.name.clone());
+                if r.elided {
+                    out.push("^".into());
+                }
+                out.push(":".into());
+                if let Some(b) = &r.body {
+                    self.lexemes_of_rx(b, out);
+                }
+                out.push(";".into());
+            }
+        }
+    }
+    pub fn lexemes_of_rx(&self, r: &Rx, out: &mut Vec<String>) {
+        match r {
+            Rx::Tok(t) => out.push(self.tokens[*t].name.clone()),
+            Rx::Sym(t) => out.push(format!(
+                "'{}'",
+                self.tokens[*t].symbol.as_ref().expect("Sym needs a symbol")
+            )),
+            Rx::Ref(i) => out.push(self.rules[*i].name.clone()),
+            Rx::Concat(v) => {
+                for x in v {
+                    self.lexemes_of_rx(x, out)
+                }
+            }
+            Rx::Alt(v) => {
+                for (i, x) in v.iter().enumerate() {
+                    if i > 0 {
+                        out.push("|".into())
+                    }
+                    self.lexemes_of_rx(x, out)
+                }
+            }
+            Rx::Choice(v) => {
+                for (i, x) in v.iter().enumerate() {
+                    if i > 0 {
+                        out.push("/".into())
+                    }
+                    self.lexemes_of_rx(x, out)
+                }
+            }
+            Rx::Star(x) => {
+                self.lexemes_of_rx(x, out);
+                out.push("*".into())
+            }
+            Rx::Plus(x) => {
+                self.lexemes_of_rx(x, out);
+                out.push("+".into())
+            }
+            Rx::Opt(x) => {
+                out.push("[".into());
+                self.lexemes_of_rx(x, out);
+                out.push("]".into())
+            }
+            Rx::Paren(x) => {
+                out.push("(".into());
+                if let Some(x) = x {
+                    self.lexemes_of_rx(x, out);
+                }
+                out.push(")".into())
+            }
+            Rx::Pred(None) => out.push("?t".into()),
+            Rx::Pred(Some(n)) => out.push(format!("?{n}")),
+            Rx::Action(n) => out.push(format!("#{n}")),
+            Rx::Assert(n) => out.push(format!("!{n}")),
+            Rx::Rename(n) => out.push(format!("@{n}")),
+            Rx::Elide => out.push("^".into()),
+            Rx::Marker(n) => out.push(format!("<{n}")),
+            Rx::Create(n, name) => {
+                let mut s = String::new();
+                if let Some(n) = n {
+                    write!(s, "{n}").unwrap();
+                }
+                s.push('>');
+                if let Some(name) = name {
+                    s.push_str(name);
+                }
+                out.push(s)
+            }
+            Rx::Commit => out.push("~".into()),
+            Rx::Return => out.push("&".into()),
+        }
+    }
+    pub fn lexemes(&self, decls: &[Decl]) -> Vec<String> {
+        let mut out = vec![];
+        for d in decls {
+            self.lexemes_of_decl(d, &mut out);
+        }
+        out
+    }
+    /// Default text: one declaration per line, single spaces between lexemes.
+    pub fn text_with(&self, decls: &[Decl]) -> String {
+        let mut s = String::new();
+        for d in decls {
+            let mut out = vec![];
+            self.lexemes_of_decl(d, &mut out);
+            s.push_str(&out.join(" "));
+            s.push('\n');
+        }
+        s
+    }
+    pub fn text(&self) -> String {
+        self.text_with(&self.default_decls())
+    }
+    pub fn rx_text(&self, r: &Rx) -> String {
+        let mut out = vec![];
+        self.lexemes_of_rx(r, &mut out);
+        out.join(" ")
+    }
+    pub fn walk_all<'a>(&'a self, f: &mut dyn FnMut(usize, &'a Rx)) {
+        for (i, r) in self.rules.iter().enumerate() {
+            if let Some(b) = &r.body {
+                b.walk(&mut |x| f(i, x));
+            }
+        }
+    }
+    pub fn contains(&self, p: &dyn Fn(&Rx) -> bool) -> bool {
+        self.rules
+            .iter()
+            .any(|r| r.body.as_ref().is_some_and(|b| b.contains(p)))
+    }
+    /// entry points: start rule first, then parts
+    pub fn entries(&self) -> Vec<usize> {
+        let mut v = vec![self.start];
+        v.extend(self.parts.iter().copied());
+        v
+    }
+    /// Rules reachable from the start rule or a part.
+    pub fn reachable(&self) -> Vec<bool> {
+        let mut seen = vec![false; self.rules.len()];
+        let mut stack = self.entries();
+        while let Some(r) = stack.pop() {
+            if seen[r] {
+                continue;
+            }
+            seen[r] = true;
+            if let Some(b) = &self.rules[r].body {
+                b.walk(&mut |x| {
+                    if let Rx::Ref(i) = x {
+                        stack.push(*i)
+                    }
+                });
+            }
+        }
+        seen
+    }
+    /// Rules reachable from the start rule only.
+    pub fn reachable_from_start(&self) -> Vec<bool> {
+        let mut seen = vec![false; self.rules.len()];
+        let mut stack = vec![self.start];
+        while let Some(r) = stack.pop() {
+            if seen[r] {
+                continue;
+            }
+            seen[r] = true;
+            if let Some(b) = &self.rules[r].body {
+                b.walk(&mut |x| {
+                    if let Rx::Ref(i) = x {
+                        stack.push(*i)
+                    }
+                });
+            }
+        }
+        seen
+    }
+    /// productive[r]: rule r derives some finite token string (ordered choice / predicates ignored).
+    pub fn productive(&self) -> Vec<bool> {
+        let mut prod = vec![false; self.rules.len()];
+        fn p(r: &Rx, prod: &[bool]) -> bool {
+            match r {
+                Rx::Tok(_) | Rx::Sym(_) => true,
+                Rx::Ref(i) => prod[*i],
+                Rx::Concat(v) => v.iter().all(|x| p(x, prod)),
+                Rx::Alt(v) | Rx::Choice(v) => v.iter().any(|x| p(x, prod)),
+                Rx::Star(_) | Rx::Opt(_) => true,
+                Rx::Plus(x) => p(x, prod),
+                Rx::Paren(Some(x)) => p(x, prod),
+                _ => true,
+            }
+        }
+        loop {
+            let mut change = false;
+            for (i, r) in self.rules.iter().enumerate() {
+                if !prod[i] {
+                    let v = r.body.as_ref().map_or(true, |b| p(b, &prod));
+                    if v {
+                        prod[i] = true;
+                        change = true;
+                    }
+                }
+            }
+            if !change {
+                break;
+            }
+        }
+        prod
+    }
+    /// Every sub-expression of every reachable rule derives a finite token string (stronger than rule
+    /// productivity: `s: A (x | B)` with unproductive x is not fully productive). Required for viable-prefix
+    /// reasoning and to keep generated parsers from recursing forever.
+    pub fn fully_productive(&self) -> bool {
+        let prod = self.productive();
+        let reach = self.reachable();
+        for (i, r) in self.rules.iter().enumerate() {
+            if !reach[i] {
+                continue;
+            }
+            if !prod[i] {
+                return false;
+            }
+            if let Some(b) = &r.body {
+                let mut ok = true;
+                b.walk(&mut |x| {
+                    if let Rx::Ref(j) = x {
+                        if !prod[*j] {
+                            ok = false
+                        }
+                    }
+                });
+                if !ok {
+                    return false;
+                }
+            }
+        }
+        true
+    }
+    pub fn is_reduced(&self) -> bool {
+        self.reachable().iter().all(|b| *b) && self.fully_productive()
+    }
+}
